@@ -62,9 +62,9 @@ func c11(c *q.Ctx) {
 		} else {
 			c.OnlyUnder(vp, q.ToFieldStoreVal("PermNode.Status", "2"), []q.Cond{
 				{Canon: "i:ACLValidator.Validate(*)#0", Sense: true},
-				{Canon: "(0 == phi{1|utils.IsAccount(" + node + ".Name)})", Sense: true},
+				{Canon: "(0 == len(" + node + ".Children))", Sense: true},
 				{Canon: "(nil == " + node + ".ACL)", Sense: true},
-			}, "a node succeeds only if its rule's validator answered true, or it is a key (whose signature was verified before), or it has no rule")
+			}, "a node succeeds only if its rule's validator answered true, or it has no rule, or it is a key AND a leaf: only the last element of an auth_require path is signature-checked, so a key named as an inner element proves nothing")
 		}
 	}
 	for _, f := range []string{"IdentifyAccount", "CheckContractMethodPerm"} {
